@@ -22,6 +22,8 @@ pub enum Event {
     },
     /// A sent frame was accepted as acknowledged for the first time.
     FrameAcked { frame_id: u32 },
+    /// The sender marked a fragment of a pending packet as acknowledged.
+    FragmentAcked { sequence_id: u32, fragment_id: u16 },
     /// An acknowledgement group passed validation (known frames, correct nonce parity).
     AckGroupAccepted { base_id: u32, bitfield: u32 },
     /// The sender's packet window base moved.
